@@ -103,17 +103,22 @@ def handleReplace (ws : List String) : String :=
   | kind :: ids :: sd :: rn :: gs :: rest =>
     match ids.toNat?, sd.toNat?, rn.toNat?, gs.toNat? with
     | some k, some seed, some rounds, some gas =>
-      let bodyWs := rest.takeWhile (· ≠ ";;")
-      let (a, b) := splitAtBar (rest.drop (bodyWs.length + 1))
+      let bodyWs0 := rest.takeWhile (· ≠ ";;")
+      -- an optional first word `locals:<ty>,<ty>,…` declares the scratch locals of the body
+      let extra : List String := match bodyWs0.head? with
+        | some w => if w.startsWith "locals:" then (w.drop 7).toString.splitOn "," else []
+        | none => []
+      let bodyWs := if extra.isEmpty then bodyWs0 else bodyWs0.drop 1
+      let (a, b) := splitAtBar (rest.drop (bodyWs0.length + 1))
       let mA := parseModule a
       let mB := parseModule b
       match mkEnv mA, structureBody (bodyWs.map parseOp) with
       | some E, some body =>
         let spec : Option String :=
           if kind = "imp" then
-            (E.replaceImported k body).map fun E' => observeWith mA E'.resolve E'.usigs (invoke E' gas) seed rounds
+            (E.replaceImported k body extra).map fun E' => observeWith mA E'.resolve E'.usigs (invoke E' gas) seed rounds
           else
-            (replaceExported mA E k body).map fun p => observeWith p.1 p.2.resolve p.2.usigs (invoke p.2 gas) seed rounds
+            (replaceExported mA E k body extra).map fun p => observeWith p.1 p.2.resolve p.2.usigs (invoke p.2 gas) seed rounds
         (match spec with
          | none => "edit-rejected"
          | some os =>
